@@ -20,7 +20,8 @@ MANIFEST = dict(
          "outcome of each API are both reached; on every path result.dtype == channel.dtype and len(full) == len(channel) are "
          "checked (dtype promotion itself is executed by real NumPy; the solver decides the window dimension and enumerates the "
          "type dimension).  Scale coefficients are symbolic in a second harness ('dtype mode': real NumPy arrays, coefficients "
-         "solver variables), so value-dependent shortcuts in scale code are paths of their own.",
+         "solver variables), so value-dependent shortcuts in scale code are paths of their own.  Under raw_timestamps=True (where the "
+         "declared dtype is a known finding) an empty window / slice result is compared with a one-element read through the same call.",
     note="Trusted: z3, sx engine, encoder. NumPy's promotion is value-independent (NEP 50) - assumption. A read that raises inside a "
          "sensor scaling (e.g. RTD root selection on arbitrary integers) is not a 'successful read' and is skipped.",
     technique="bounded symbolic execution of the real code + SMT (z3, QF_LIA) per path; replay gate",
